@@ -11,8 +11,8 @@ pub struct TcpHeader {
     dstport: u16,     // Destination port number
     sequence: u32,    // Sequence number
     ack: u32,         // Acknowledgment number
-    data_off: u8,     // Data offset
-    flags: u16,       // Flags for TCP
+    data_off: u8,     // Data offset (4 bits)
+    flags: u16,       // Reserved and control bits (12 bits)
     window_size: u16, // Window size
     checksum: u16,    // Checksum for integrity
     urgent: u16,      // Urgent pointer
@@ -25,7 +25,9 @@ impl From<&TcpHeader> for Vec<u8> {
         bytes.extend_from_slice(&hdr.dstport.to_be_bytes());
         bytes.extend_from_slice(&hdr.sequence.to_be_bytes());
         bytes.extend_from_slice(&hdr.ack.to_be_bytes());
-        bytes.extend_from_slice(&hdr.flags.to_be_bytes());
+        // The data offset and the flags share one 16-bit word
+        let off_flags: u16 = (((hdr.data_off & 0x0F) as u16) << 12) | (hdr.flags & 0x0FFF);
+        bytes.extend_from_slice(&off_flags.to_be_bytes());
         bytes.extend_from_slice(&hdr.window_size.to_be_bytes());
         bytes.extend_from_slice(&hdr.checksum.to_be_bytes());
         bytes.extend_from_slice(&hdr.urgent.to_be_bytes());
@@ -86,7 +88,7 @@ impl Tcp {
             rawdata[off + 11],
         ]);
         let data_off = rawdata[off + 12] >> 4;
-        let flags = u16::from_be_bytes([rawdata[off + 12], rawdata[off + 13]]);
+        let flags = u16::from_be_bytes([rawdata[off + 12], rawdata[off + 13]]) & 0x0FFF;
         let window_size = u16::from_be_bytes([rawdata[off + 14], rawdata[off + 15]]);
         let checksum = u16::from_be_bytes([rawdata[off + 16], rawdata[off + 17]]);
         let urgent = u16::from_be_bytes([rawdata[off + 18], rawdata[off + 19]]);
@@ -190,7 +192,7 @@ impl Tcp {
     pub fn set_data_off(&self, data_off: Rc<Object>) -> Result<(), String> {
         match data_off.as_ref() {
             Object::Integer(data_off_value) => {
-                self.header.borrow_mut().data_off = *data_off_value as u8;
+                self.header.borrow_mut().data_off = (*data_off_value as u8) & 0x0F;
                 Ok(())
             }
             _ => Err("Invalid value for data offset".to_string()),
@@ -200,7 +202,7 @@ impl Tcp {
     pub fn set_flags(&self, flags: Rc<Object>) -> Result<(), String> {
         match flags.as_ref() {
             Object::Integer(flags_value) => {
-                self.header.borrow_mut().flags = *flags_value as u16;
+                self.header.borrow_mut().flags = (*flags_value as u16) & 0x0FFF;
                 Ok(())
             }
             _ => Err("Invalid value for flags".to_string()),
